@@ -132,10 +132,12 @@ class DocEngine:
     def gen_init(self, rng):
         if self.cfg["src_family"] == "template":
             init = {"op": "init", "source": "template:" + rng.choice(ds.TEMPLATES, "tpl")}
-            if self.prop in ("C03", "C04") and rng.chance(0.3, "customtpl"):
+            if self.prop in ("C03", "C04", "C10") and rng.chance(0.3, "customtpl"):
                 # a document of the user's used as template (Document.new(path)): same types as the stock templates
                 init = {"op": "init", "source": "newfrom:" + rng.choice(["example.odt", "md_style.odt", "frame_image.odp", "background.odp", "simple_table.ods", "chart.odt"], "ctpl"),
                         "how": rng.choice(["path", "pathobj"], "ctplhow")}
+                if rng.chance(0.6, "tpl_changes"):
+                    init["template_changes_later"] = True  # the template file is replaced by another document right after: the new document is a copy, not a view
         else:
             samples = [x for x in ds.DOC_SAMPLES if x != "styled_table.ods"] if self.prop == "C15" else ds.DOC_SAMPLES  # (bounded table sizes)
             init = {"op": "init", "source": "sample:" + rng.choice(samples, "sample"),
@@ -180,7 +182,7 @@ class DocEngine:
                        ("clone_swap", 1),
                        ("relookup", 2), ("touch", 1), ("edit", 1), ("save", 2.5 if self.n_saves < cfg["max_saves"] else 0), ("reopen", 3 if self._reopenable() else 0)]
         if self.prop == "C11":
-            weights = [("touch", 10 * cfg["p_touch"]), ("edit", 3), ("rich_para", 6), ("add_file", 1), ("set_part", 1.5), ("del_part", 1), ("save_set", 10 * cfg["p_save"] if self.n_saves < cfg["max_saves"] else 0),
+            weights = [("touch", 10 * cfg["p_touch"]), ("edit", 3), ("rich_para", 6), ("add_file", 1), ("set_part", 1.5), ("del_part", 1), ("set_mimetype", 0.8), ("save_set", 10 * cfg["p_save"] if self.n_saves < cfg["max_saves"] else 0),
                        ("reopen", (3 * cfg["p_reopen"]) if self._reopenable() else 0)]
         name = rng.weighted(weights, "op")
         op = {"op": name}
@@ -195,7 +197,7 @@ class DocEngine:
                 # an I/O error in the middle of a lazy load
                 op["fault"] = {"site": rng.choice(["zip_read", "read_bytes", "zip_open_r"], "rfsite"), "k": 1, "errno": rng.choice(["EIO", "EACCES"], "rferr")}
         elif name == "edit":
-            op["kind"] = rng.choice(["para", "heading", "list", "table", "image", "meta_title", "meta_user", "meta_keyword", "style", "delete_last"] + (["numlist", "numlist", "foreign_named_range", "xml_prolog"] if self.prop == "C15" else []) + (["meta_generator"] if self.prop == "C03" else []), "ekind")
+            op["kind"] = rng.choice(["para", "heading", "list", "table", "image", "meta_title", "meta_user", "meta_keyword", "style", "delete_last"] + (["numlist", "numlist", "foreign_named_range", "xml_prolog", "meta_sparse"] if self.prop == "C15" else []) + (["meta_generator"] if self.prop == "C03" else []), "ekind")
             op["n"] = n
             if self.prop == "C15" and self._doc_type() == "spreadsheet" and rng.chance(0.25, "fnr?"):
                 op["kind"] = "foreign_named_range"
@@ -269,8 +271,12 @@ class DocEngine:
             if self.sut.src["kind"] == "folder" and self.sut.src.get("path") and rng.chance(0.4, "inplace_variant"):
                 # last of the set: the folder the document was opened from is saved in place
                 op["variants"].append({"packaging": "folder", "pretty": rng.choice([None, False], "ipretty"), "target": "inplace"})
+                if rng.chance(0.5, "ibackup"):
+                    op["variants"][-1]["backup"] = True
             if rng.chance(0.3, "reuse_buf"):
                 op["reuse_buffer"] = True  # zip variants written to a buffer go to ONE buffer, one after the other
+            if self.n_saves == 0 and rng.chance(0.3, "xml_first"):
+                op["xml_first"] = True  # the flat export is the very first save (nothing loaded by an earlier one)
             if rng.chance(self.cfg["p_fault"], "fault?"):
                 op["fault"] = {"site": rng.choice(["writestr", "write_bytes", "bytesio_write", "mkdir", "rmtree", "zip_read", "zip_open_r", "read_bytes"], "fsite"), "k": rng.randint(1, 6, "fk"), "errno": rng.choice(["ENOSPC", "EIO"], "ferr"), "partial": rng.chance(0.5, "fpartial"), "at": rng.randint(-1, k - 1, "fat")}
                 if op["fault"]["at"] == -1:
@@ -342,13 +348,14 @@ class DocEngine:
         from odfdo import Element
 
         def cell(v, k=1):
-            rep = f' table:number-columns-repeated="{k}"' if k > 1 else ""
+            rep = f' table:number-columns-repeated="{k}"' if (k > 1 or (k == 1 and n % 5 == 0)) else ""
             if v is None:
                 return f"<table:table-cell{rep}/>"
             return f'<table:table-cell{rep} office:value-type="string"><text:p>{v}</text:p></table:table-cell>'
 
         def row(cells, k=1):
-            rep = f' table:number-rows-repeated="{k}"' if k > 1 else ""
+            # (a repeat count of 1 written out is valid ODF; some producers do it)
+            rep = f' table:number-rows-repeated="{k}"' if (k > 1 or (k == 1 and n % 3 == 0)) else ""
             return f"<table:table-row{rep}>{cells}</table:table-row>"
 
         a, b = 2 + n % 3, 2 + (n // 2) % 2
@@ -404,6 +411,8 @@ class DocEngine:
                 inner = "".join(inline(depth + 1) for _ in range(rng.randint(1, 3, "nmeta")))
                 return '<%s xml:id="mt%d">marked <text:span text:style-name="T1">part</text:span> %s here</%s>' % (tag, n, inner, tag)
             if k == "annotation":
+                if self.prop == "C15" and rng.chance(0.5, "undated"):
+                    return '<office:annotation><dc:creator>sim</dc:creator><text:p>undated annot %d</text:p></office:annotation>' % n  # (dc:date is optional)
                 return '<office:annotation><dc:creator>sim</dc:creator><dc:date>2024-01-01T00:00:00</dc:date><text:p>annot %d</text:p></office:annotation>' % n
             if k == "refmark":
                 if depth == 0 and self.prop == "C15" and rng.chance(0.6, "rmrange"):
@@ -721,6 +730,18 @@ class DocEngine:
             if ga != gb:
                 return [Violation("C10", "clone-differs-at-birth", "clone_part", feats + ["same_call_on_both"], None,
                                   f"set_generator_default() then get_generator(): the original answers {ga!r}, its clone {gb!r}")]
+            # ... also a call that has to CREATE an element that is not there yet
+            try:
+                key = f"both{op['n']}"
+                part.set_user_defined_metadata(key, f"v{op['n']}")
+                b.set_user_defined_metadata(key, f"v{op['n']}")
+                ua, ub = part.get_user_defined_metadata().get(key), b.get_user_defined_metadata().get(key)
+                sa, sb = key.encode() in part.serialize(), key.encode() in b.serialize()
+            except Exception as e:
+                return [Violation("C10", "twin-unreadable", "clone_part", feats + ["same_call_on_both"], type(e).__name__, str(e))]
+            if (ua, sa) != (ub, sb):
+                return [Violation("C10", "clone-differs-at-birth", "clone_part", feats + ["same_call_on_both"], None,
+                                  f"set_user_defined_metadata({key!r}) on both: the original answers {ua!r} (in its XML: {sa}), the clone {ub!r} (in its XML: {sb})")]
             a0 = part.serialize()
         # edit the clone: the original must not notice; then the reverse
         try:
@@ -862,6 +883,17 @@ class DocEngine:
                 data = etree.tostring(root, xml_declaration=True, encoding="UTF-8")
                 doc.set_part("content.xml", data)
                 st.set_part("content.xml", data)
+                return None
+            if kind == "meta_sparse":
+                # a meta.xml with fewer of the optional elements (no meta:document-statistic, no generator), as small
+                # producers write it; put in at the XML level
+                root = etree.fromstring(doc.get_part("meta.xml").serialize())
+                for tag in ("meta:document-statistic", "meta:generator", "meta:editing-cycles")[: 1 + n % 3]:
+                    for e in list(root.iter(xmlref.q(tag))):
+                        e.getparent().remove(e)
+                data = etree.tostring(root, xml_declaration=True, encoding="UTF-8")
+                doc.set_part("meta.xml", data)
+                st.set_part("meta.xml", data)
                 return None
             if kind == "xml_prolog":
                 # parts as another producer writes them: a comment before, a processing instruction after the
@@ -1080,6 +1112,15 @@ class DocEngine:
             self.stats.probe("unread_parts_fetched_at_save")
         base_feats = self._feats()
         fault = op.get("fault")
+        flat_first = None
+        if op.get("xml_first"):
+            fb = io.BytesIO()
+            res, exc = self._call(lambda: doc.save(fb, packaging="xml", pretty=False), "save")
+            if exc is not None:
+                self._outcome = "save_set:xml-first-raises"
+                return [Violation("C11", "save-raises", "save_set", base_feats + ["pk:xml", "pretty:False", "first_save"], type(exc).__name__, f"{type(exc).__name__}: {exc}")]
+            flat_first = fb.getvalue()
+            self.stats.probe("flat_export_as_first_save")
         # reference: plain zip (this is also where parts not read yet are loaded)
         ref_buf = io.BytesIO()
         armed0 = bool(fault) and fault.get("at") == -1
@@ -1111,8 +1152,17 @@ class DocEngine:
             self._outcome = "save_set:memory-changed"
             return [Violation("C11", "memory-changed-by-save", "save_set", base_feats + ["pk:zip", "pretty:False"], None, d)]
         ref_roots = {n: etree.fromstring(ref.parts[n]) for n in ("content.xml", "styles.xml", "meta.xml", "settings.xml") if n in ref.parts}
+        self._ref_names = set(ref.parts)
         self.artifacts.append({"packaging": "zip", "data": ref_buf.getvalue(), "expected": {}, "mimetype": st.mimetype, "feats": base_feats})
         out = []
+        if flat_first is not None:
+            try:
+                v0 = self._compare_variant(ref_roots, {"flat": etree.fromstring(flat_first)}, "xml", base_feats + ["pk:xml", "pretty:False", "first_save"])
+            except Exception as e:
+                v0 = Violation("C11", "variant-unreadable", "save_set", base_feats + ["pk:xml", "first_save"], type(e).__name__, str(e))
+            if v0:
+                self._outcome = "save_set:" + v0.oracle
+                return [v0]
         shared_buf = simenv.FaultyBytesIO() if op.get("reuse_buffer") else None
         for i, v in enumerate(op["variants"]):
             pk, pr = v["packaging"], v["pretty"]
@@ -1133,6 +1183,9 @@ class DocEngine:
             kw = {"packaging": pk}
             if pr is not None:
                 kw["pretty"] = pr
+            if v.get("backup"):
+                kw["backup"] = True
+                feats = feats + ["backup"]
             armed = bool(fault) and fault.get("at") == i
             if armed:
                 self.env.arm(fault)
@@ -1240,6 +1293,21 @@ class DocEngine:
             n_flat = sum(1 for _ in flat.iter(IMG_))
             if n_ref != n_flat:
                 return Violation("C11", "structure-changed", "save_set", feats + ["images"], None, f"the parts hold {n_ref} draw:image elements, the flat document {n_flat}")
+            # every image of content.xml whose file is in the package is embedded (office:binary-data), wherever that file lives
+            names = getattr(self, "_ref_names", None)
+            if names is not None and "content.xml" in ref_roots:
+                HREF = "{http://www.w3.org/1999/xlink}href"
+                want_emb = 0
+                for im in ref_roots["content.xml"].iter(IMG_):
+                    h = (im.get(HREF) or "")
+                    h = h[2:] if h.startswith("./") else h
+                    if h and h in names:
+                        want_emb += 1
+                got_emb = sum(1 for _ in flat.iter(xmlref.q("office:binary-data")))
+                n_style_emb = sum(1 for n in ("styles.xml",) if n in ref_roots for _ in ref_roots[n].iter(xmlref.q("office:binary-data")))
+                if got_emb - n_style_emb < want_emb:
+                    return Violation("C11", "structure-changed", "save_set", feats + ["images_not_embedded"], None,
+                                     f"{want_emb} images of content.xml have their file in the package, the flat document embeds {got_emb - n_style_emb}")
             wl = []
             for n in ("meta.xml", "settings.xml", "styles.xml", "content.xml"):
                 if n in ref_roots:
@@ -1659,6 +1727,22 @@ class DocEngine:
             self.stats.probe("env:source-file-touched")
             self.flags.add("source_file_touched")
         self._outcome = "env_touch_source"
+        return []
+
+    def _op_set_mimetype(self, op):
+        """the document type is switched to / from its template variant through Document.mimetype (the manifest
+        root entry is left as it is: a later save must not 'repair' the in-memory manifest behind the user's back)"""
+        doc, st = self.sut.doc, self.sut.store
+        cur = st.mimetype
+        new = cur[: -len("-template")] if cur.endswith("-template") else cur + "-template"
+        res, exc = self._call(lambda: setattr(doc, "mimetype", new), "set_mimetype")
+        self._outcome = f"set_mimetype:{'exc' if exc else 'ok'}"
+        if exc is not None:
+            return []
+        st.over["mimetype"] = new.encode()
+        st.mimetype = new
+        self.flags.add("mimetype_switched")
+        self.n_edits += 1
         return []
 
     def _op_set_part_many(self, op):
